@@ -356,3 +356,146 @@ Proof.
       - rewrite (abs_unknown hs h0 p Hod Hkidx). reflexivity. }
     rewrite Enoop. split; [constructor; assumption|apply ctl4_refl].
 Qed.
+
+(* ---- applyStorage: the buffer is cut into maximal runs of commands on one handle ---- *)
+Definition allh (h : handle) (l : list cmd) : Prop := Forall (fun c => cmd_handle c = h) l.
+
+Lemma split_packs_concat : forall cs cur, concat (split_packs cs cur) = rev cur ++ cs.
+Proof.
+  induction cs as [|c t IH]; intros cur; simpl.
+  - destruct cur; simpl; rewrite ?app_nil_r; reflexivity.
+  - destruct cur as [|c0 cur'].
+    + rewrite IH. reflexivity.
+    + destruct (handle_eqb (cmd_handle c0) (cmd_handle c)).
+      * rewrite IH. simpl. rewrite <- app_assoc. reflexivity.
+      * simpl. rewrite IH. simpl. reflexivity.
+Qed.
+
+Lemma split_packs_uniform : forall cs cur h, allh h cur ->
+  Forall (fun p => p <> [] /\ exists h', allh h' p) (split_packs cs cur).
+Proof.
+  induction cs as [|c t IH]; intros cur h Hcur; simpl.
+  - destruct cur as [|c0 cur']; [constructor|]. constructor; [|constructor]. split.
+    + simpl. intros E. apply app_eq_nil in E. destruct E as (_ & E). discriminate.
+    + exists h. apply Forall_rev. assumption.
+  - destruct cur as [|c0 cur'].
+    + apply (IH [c] (cmd_handle c)). constructor; [reflexivity|constructor].
+    + destruct (handle_eqb (cmd_handle c0) (cmd_handle c)) eqn:E.
+      * apply handle_eqb_eq in E. apply (IH (c :: c0 :: cur') h). constructor; [|assumption].
+        inversion Hcur; subst. congruence.
+      * constructor.
+        -- split; [simpl; intros E'; apply app_eq_nil in E'; destruct E' as (_ & E'); discriminate|exists h; apply Forall_rev; assumption].
+        -- apply (IH [c] (cmd_handle c)). constructor; [reflexivity|constructor].
+Qed.
+
+Lemma creates_first_app_l a b : creates_first (a ++ b) -> creates_first a.
+Proof. intros H b1 h key b2 E c Hin. apply (H b1 h key (b2 ++ b)); [rewrite E, <- app_assoc; reflexivity|assumption]. Qed.
+Lemma creates_first_app_r a b : creates_first (a ++ b) -> creates_first b.
+Proof. intros H b1 h key b2 E c Hin. apply (H (a ++ b1) h key b2); [rewrite E, <- app_assoc; reflexivity|apply in_or_app; right; assumption]. Qed.
+
+Lemma Q_packs hs : forall ps s sp rem' s',
+  Forall (fun p => p <> [] /\ exists h', allh h' p) ps -> Forall (wf_cmd hs) (concat ps) -> creates_first (concat ps) ->
+  within (length hs) -> Q s hs sp (abs_buf hs (concat ps) ++ rem') ->
+  fold_res apply_pack ps s = Ok s' ->
+  Q s' hs (fold_left spec_cmd (abs_buf hs (concat ps)) sp) rem' /\ ctl4 s s'.
+Proof.
+  induction ps as [|p ps IH]; intros s sp rem' s' Hu Hwf Hcf Hb HQ H.
+  - simpl in H. inversion H; subst s'. simpl in *. split; [assumption|apply ctl4_refl].
+  - simpl in H. apply bind_ok in H. destruct H as (s1 & Hp & H).
+    inversion Hu as [|p' ps' (Hne & h & Hall) Hu']; subst p' ps'.
+    simpl in Hwf, Hcf, HQ |- *. apply Forall_app in Hwf. destruct Hwf as (Hwfp & Hwfr).
+    unfold abs_buf in HQ |- *. rewrite filter_map_app in HQ |- *. rewrite <- app_assoc in HQ. rewrite fold_left_app.
+    fold (abs_buf hs p) in HQ |- *. fold (abs_buf hs (concat ps)) in HQ |- *.
+    pose proof (creates_first_app_l _ _ Hcf) as Hcfp. pose proof (creates_first_app_r _ _ Hcf) as Hcfr.
+    destruct p as [|c0 t]; [congruence|].
+    assert (Hstep : Q s1 hs (fold_left spec_cmd (abs_buf hs (c0 :: t)) sp) (abs_buf hs (concat ps) ++ rem') /\ ctl4 s s1).
+    { inversion Hall as [|x l Hc0 Ht]; subst x l. inversion Hwfp as [|x l Hwc0 Hwt]; subst x l.
+      destruct c0 as [h0 key|h0|h0].
+      - simpl in Hc0. subst h. apply Q_create_pack; try assumption. apply (pack_tail_destroys h0 key t Hcfp Ht).
+      - apply Q_other_pack; try assumption; [intros; discriminate|]. apply pack_destroys; [intros; discriminate|assumption|].
+        simpl in Hc0 |- *. subst h. exact Hall.
+      - apply Q_other_pack; try assumption; [intros; discriminate|]. apply pack_destroys; [intros; discriminate|assumption|].
+        simpl in Hc0 |- *. subst h. exact Hall. }
+    destruct Hstep as (HQ1 & Hc1).
+    destruct (IH s1 _ rem' s' Hu' Hwfr Hcfr Hb HQ1 H) as (HQ2 & Hc2).
+    split; [exact HQ2|eapply ctl4_trans; eassumption].
+Qed.
+
+(* ---- all buffers, in thread order ---- *)
+Lemma Q_buffers hs : forall bs s sp s',
+  Forall (Forall (wf_cmd hs)) bs -> Forall creates_first bs -> within (length hs) ->
+  Q s hs sp (concat (map (abs_buf hs) bs)) ->
+  fold_res apply_storage bs s = Ok s' ->
+  Q s' hs (fold_left (fun st b => fold_left spec_cmd b st) (map (abs_buf hs) bs) sp) [] /\ ctl4 s s'.
+Proof.
+  induction bs as [|b bs IH]; intros s sp s' Hwf Hcf Hb HQ H.
+  - simpl in H. inversion H; subst s'. simpl in *. split; [assumption|apply ctl4_refl].
+  - simpl in H. apply bind_ok in H. destruct H as (s1 & Hst & H). simpl in HQ |- *.
+    inversion Hwf as [|x l Hwfb Hwfr]; subst x l. inversion Hcf as [|x l Hcfb Hcfr]; subst x l.
+    unfold apply_storage in Hst.
+    pose proof (split_packs_concat b []) as Ec. simpl in Ec.
+    assert (Hu : Forall (fun p => p <> [] /\ exists h', allh h' p) (split_packs b [])) by (apply (split_packs_uniform b [] null_handle); constructor).
+    rewrite <- Ec in Hwfb, Hcfb, HQ |- *.
+    destruct (Q_packs hs (split_packs b []) s sp _ s1 Hu Hwfb Hcfb Hb HQ Hst) as (HQ1 & Hc1).
+    destruct (IH s1 _ s' Hwfr Hcfr Hb HQ1 H) as (HQ2 & Hc2).
+    split; [exact HQ2|eapply ctl4_trans; eassumption].
+Qed.
+
+Lemma spec_bufs_frame l sp : let spf := fold_left (fun st b => fold_left spec_cmd b st) l sp in
+  sp_lock spf = sp_lock sp /\ sp_bufs spf = sp_bufs sp /\ sp_count spf = sp_count sp /\ sp_nthr spf = sp_nthr sp.
+Proof.
+  revert sp. induction l as [|b t IH]; intros sp; simpl; [auto|]. destruct (IH (fold_left spec_cmd b sp)) as (A & B & C & D).
+  destruct (spec_fold_frame b sp) as (A' & B' & C' & D'). repeat split; congruence.
+Qed.
+
+Lemma all_nil_map_const {A} (l : list (list A)) : Forall (fun b => b = []) (map (fun _ => @nil A) l).
+Proof. induction l; simpl; constructor; auto. Qed.
+
+Lemma map_const_eq {A B C} (l : list A) (f : B -> list C) (l' : list B) : length l = length l' ->
+  (forall x, In x (map (fun _ => @nil C) l) -> x = []) ->
+  map (fun _ => @nil C) l = map (fun _ => @nil C) l'.
+Proof. revert l'. induction l as [|x t IH]; intros [|y t'] H _; simpl in *; try lia; [reflexivity|]. f_equal. apply IH; [lia|]. intros z Hz. apply in_map_iff in Hz. destruct Hz as (_ & <- & _). reflexivity. Qed.
+
+(* ---- the outermost unlock() ---- *)
+Lemma R_unlock_flush s hs sp s' : R s hs sp -> pred (sp_lock sp) = 0 -> within (length hs) ->
+  step s Unlock = Ok (s', None) -> R s' hs (spec_step sp SoUnlock).
+Proof.
+  intros HR Hp Hb H. pose proof HR as HR0. destruct HR as [HG Hc Hl Hn Hbf Hwf Hu Hcr Hmi Hml Hm Hs He Hcf].
+  unfold step in H. simpl in H. rewrite Hl, Hp in H. apply bind_ok in H. destruct H as (s2 & Hfl & H). inversion H; subst s2; clear H.
+  unfold flush in Hfl. simpl in Hfl. apply bind_ok in Hfl. destruct Hfl as (s2 & Hfold & Hfl). inversion Hfl; subst s'; clear Hfl.
+  unfold spec_step. simpl. rewrite Hp. unfold spec_flush. simpl.
+  set (sp1 := with_lock sp 0).
+  assert (Hids : forall h, In h hs -> N.to_nat (fst h) < length hs).
+  { intros h Hin. destruct (Nat.eq_dec (sp_lock sp) 0) as [E0|Hne].
+    - pose proof (R_rem_nil _ _ _ HR0 E0) as Hrem. rewrite Hrem in HG. destruct (In_hnd _ _ Hin) as (k & Hk & <-).
+      pose proof (ids_in_range s hs _ k HG Hk). lia.
+    - destruct (He Hne) as (_ & E2 & E3). pose proof (E3 h Hin). lia. }
+  assert (HQ : Q (set_lock s 0) hs sp1 (concat (map (abs_buf hs) (bufs s)))).
+  { constructor; simpl.
+    - rewrite <- Hbf. eapply G_same_core; [| | | | |exact HG]; reflexivity.
+    - rewrite <- Hbf. assumption.
+    - split; [assumption|]. split; assumption.
+    - assumption.
+    - assumption. }
+  destruct (Q_buffers hs (bufs s) (set_lock s 0) sp1 s2 Hwf Hcf Hb HQ Hfold) as (HQ2 & (C1 & C2 & C3 & C4)). simpl in C1, C2, C3, C4.
+  rewrite <- Hbf in HQ2.
+  set (spf := fold_left (fun st b => fold_left spec_cmd b st) (sp_bufs sp) sp1) in *.
+  destruct (spec_bufs_frame (sp_bufs sp) sp1) as (F1 & F2 & F3 & F4). fold spf in F1, F2, F3, F4. simpl in F1, F2, F3, F4.
+  destruct HQ2 as [HG2 Hcr2 (M1 & M2 & M3) Hs2 _].
+  assert (Hrem2 : concat (map (fun _ : list scmd => @nil scmd) (sp_bufs spf)) = []) by (apply all_nil_concat; apply all_nil_map_const).
+  clearbody spf. constructor; simpl.
+  - rewrite Hrem2. eapply G_same_core; [| | | | |exact HG2]; reflexivity.
+  - congruence.
+  - congruence.
+  - congruence.
+  - rewrite F2, Hbf, C3, !map_map. reflexivity.
+  - apply all_nil_wf. apply all_nil_map_const.
+  - intros _. apply all_nil_map_const.
+  - rewrite Hrem2. constructor.
+  - assumption.
+  - assumption.
+  - assumption.
+  - assumption.
+  - intros Hne. rewrite F1 in Hne. simpl in Hne. contradiction.
+  - clear. induction (bufs s2) as [|x t IH]; simpl; constructor; [|assumption]. intros b1 h key b2 E. destruct b1; discriminate.
+Qed.
